@@ -27,6 +27,10 @@ def classify(case, failure):
         masks = {"x": dspec[1], "y": dspec[2]}
         if any(d[0] == "dom" and masks.get(d[1], 1) == 0 for d in decls):
             return "C01/empty-domain/unsound-row"
+    # the same finding when the variable without values is a quantified one (D5zempty): an exists whose condition can hold
+    # without binding the quantified variable (union-form or_) holds although the variable has no value at all
+    if dspec[0] == "D5zempty" and failure.kind == "unsound-row" and any(s_[0] == "exists" for s_ in subs):
+        return "C01/empty-domain/unsound-row"
     # C01-F19: == / != between two collections compares them as sets
     if failure.kind in ("unsound-row", "missing-row") and any(
             s_[0] == "cmp" and s_[1] in ("eq", "ne") and s_[2][0] == "attr" and s_[2][2] in ("tags", "vals")
